@@ -38,6 +38,12 @@ pub fn failing_primer(case: &mut StepCase, e: &mut Ent) {
             c.extend(w2(b));
             Primer { pc: e.pick(&[0x5ffffcu32, 0x0000fc]), code: c, er: [reg; 8] }
         }
+        3 if e.chance(1, 2) => {
+            // complete multi-word encodings of instructions the emulator must refuse: refused or not, nothing of
+            // them may linger (a prefix that is remembered, a mode that stays switched on)
+            const REJECTED4: [u32; 12] = [0x01c0_5012, 0x01c0_5234, 0x01d0_5112, 0x01d0_5334, 0x0140_6900, 0x0140_6d00, 0x7b5c_598f, 0x7bd4_598f, 0x6a40_1234, 0x6ac0_1234, 0x0140_6f10, 0x01c0_50ff];
+            Primer { pc: 0x5f0000 + 2 * e.below(0x100), code: e.pick(&REJECTED4).to_be_bytes().to_vec(), er: [e.pick(&[0x0050_0000u32, 0x00ff_e000, reg]); 8] }
+        }
         3 => Primer { pc: 0x5f0000 + 2 * e.below(0x100), code: w2(e.pick(&REJECTED)), er: [reg; 8] },
         4 => {
             let c = e.pick(&FAULTING);
